@@ -1,3 +1,254 @@
-import WntrModel.Model.Registry
+/-
+C14 — all views of the model stay mutually consistent under any edit history.
+
+Model: `WntrModel/Model/Registry.lean` (M3), a line-by-line model of the registries of `WaterNetworkModel` (nodes, links,
+patterns, curves, sources, controls), their usage maps and typed ordered sets, with every `add_*`, `remove_*` and
+reassignment operation, for arbitrary (also invalid) arguments.  The model has two variants: `coded` (the tree before
+fixes/C14-*.patch) and `repaired` (the tree with them).  The harness runs the driver against the implementation after every
+operation of random histories, so the variant that is proved about is the one that is checked against the code.
+
+`Inv s` (Model/Registry.lean) — all views agree:
+  nodup               no name twice in a name list / typed set (so counts = number of elements)
+  typed*Sound/Complete the typed sets (junctions … gpvs, curve types) hold exactly the existing elements of their class
+  endsExist           every link's end nodes exist
+  usageNode*          node usage records ⇔ existing links with an end at the node / existing sources at the node
+  usagePat*           pattern usage records ⇔ existing junctions / reservoirs / pumps / sources that name the pattern
+  usageCurve*         curve usage records ⇔ existing tanks / head pumps / GPVs that name the curve
+`InvR s` = `Inv s` ∧ no usage record keyed by a Pattern object (the repaired code never writes one).
+
+Theorems (for EVERY state, EVERY operation with EVERY argument, EVERY finite history — no bounds):
+  inv_init, inv_step, inv_reachable, not_ok_unchanged / refused_leaves_unchanged, in-use removals are refused,
+  invB_iff (the executable invariant the driver evaluates on observed states is `Inv`),
+  views_of_inv (under `Inv` the derived views — typed iterators, get_links_for_node, to_graph — are the specification).
+The statements are FALSE of the code as it was (`coded`): one `decide`d counterexample history per defect.
+-/
+import WntrModel.Lemmas.RegistryStepAll
+
 namespace Wntr.Registry
+set_option linter.unusedVariables false
+set_option linter.unusedSimpArgs false
+
+/-! ### the executable invariant is the invariant -/
+
+/-- **invB_iff**: the Boolean the driver prints for an observed state is `Inv` -/
+theorem invB_iff (s : Reg) : invB s = true ↔ Inv s := by
+  unfold invB clauseTable
+  simp only [List.all_cons, List.all_nil, Bool.and_true, Bool.and_eq_true, decide_eq_true_eq]
+  constructor
+  · rintro ⟨a, b, c, d, e, f, g, h, i, j, k, l, m, n, o, p, q, r⟩
+    exact ⟨a, b, c, d, e, f, g, h, i, j, k, l, m, n, o, p, q, r⟩
+  · rintro ⟨a, b, c, d, e, f, g, h, i, j, k, l, m, n, o, p, q, r⟩
+    exact ⟨a, b, c, d, e, f, g, h, i, j, k, l, m, n, o, p, q, r⟩
+
+instance (s : Reg) : Decidable (Inv s) := decidable_of_iff _ (invB_iff s)
+
+/-! ### the invariant holds initially and is preserved by every operation of the repaired code -/
+
+/-- **inv_init**: a new `WaterNetworkModel()` satisfies the invariant -/
+theorem inv_init : InvR init := ⟨(invB_iff init).1 (by decide), rfl⟩
+
+/-- **inv_step**: every operation, with any arguments, whether it succeeds, is refused or raises, preserves the invariant -/
+theorem inv_step (s : Reg) (op : Op) (h : InvR s) : InvR (step repaired s op).1 := by
+  cases op with
+  | addJunction n p =>
+    rcases addJunction_cases s n p with e | ⟨hn, e⟩ <;> simp only [step, e]
+    · exact h
+    · exact addJunctionR_invR s n p hn h
+  | addTank n c =>
+    rcases addTank_cases s n c with e | ⟨hn, e⟩ <;> simp only [step, e]
+    · exact h
+    · exact addTankR_invR s n c hn h
+  | addReservoir n p =>
+    rcases addReservoir_cases s n p with e | ⟨hn, e⟩ <;> simp only [step, e]
+    · exact h
+    · exact addReservoirR_invR s n p hn h
+  | addPipe n a b =>
+    rcases addPipe_cases s n a b with e | ⟨hn, ha, hb, e⟩ <;> simp only [step, e]
+    · exact h
+    · exact addPipeR_invR s n a b hn ha hb h
+  | addPump n a b sp p =>
+    rcases addPump_cases s n a b sp p with e | ⟨hn, ha, hb, e⟩ <;> simp only [step, e]
+    · exact h
+    · exact addPumpR_invR s n a b sp p hn ha hb h
+  | addValve n a b k c =>
+    rcases addValve_cases s n a b k c with e | ⟨hk, hn, ha, hb, e⟩ <;> simp only [step, e]
+    · exact h
+    · exact addValveR_invR s n a b k c hk hn ha hb h
+  | addPattern n =>
+    rcases addPattern_cases s n with e | ⟨hn, e⟩ <;> simp only [step, e]
+    · exact h
+    · exact addPatternR_invR s n hn h
+  | addCurve n t =>
+    simp only [step, addCurve_eq]
+    exact addCurveR_invR s n t h
+  | addSource n nd p =>
+    rcases addSource_cases s n nd p with e | ⟨hn, e⟩ <;> simp only [step, e]
+    · exact h
+    · exact addSourceR_invR s n nd p hn h
+  | addControl n ns ls =>
+    rcases addControl_cases s n ns ls with e | ⟨us, e⟩ <;> simp only [step, e]
+    · exact h
+    · exact invR_congr s _ rfl rfl rfl rfl rfl rfl rfl h
+  | removeNode n wc f =>
+    rcases removeNode_cases s n wc f with ⟨_, e⟩ | e | ⟨i, hi, hu, e⟩ <;> simp only [step, e]
+    · exact h
+    · exact h
+    · split
+      · exact invR_dropControls _ _ (delNodeR_invR s n i hi hu h)
+      · exact delNodeR_invR s n i hi hu h
+  | removeLink n wc f =>
+    rcases removeLink_cases s n wc f with ⟨_, e⟩ | e | ⟨i, hi, e⟩ <;> simp only [step, e]
+    · exact h
+    · exact h
+    · split
+      · exact invR_dropControls _ _ (delLinkR_invR s n i hi h)
+      · exact delLinkR_invR s n i hi h
+  | removePattern n =>
+    rcases removePattern_cases s n with e | ⟨hu, e⟩ <;> simp only [step, e]
+    · exact h
+    · exact removePatternR_invR s n hu h
+  | removeCurve n =>
+    rcases removeCurve_cases s n with e | ⟨hu, e⟩ <;> simp only [step, e]
+    · exact h
+    · exact removeCurveR_invR s n hu h
+  | removeSource n =>
+    rcases removeSource_cases s n with e | ⟨si, hi, e⟩ <;> simp only [step, e]
+    · exact h
+    · exact removeSourceR_invR s n si hi h
+  | removeControl n =>
+    rcases removeControl_cases s n with e | e <;> simp only [step, e]
+    · exact h
+    · exact invR_congr s _ rfl rfl rfl rfl rfl rfl rfl h
+  | setStart l n =>
+    rcases setEndNode_cases s l n true with e | ⟨i, hi, hx, e⟩ <;> simp only [step, e]
+    · exact h
+    · exact setEndNodeR_invR s l n true i hi hx h
+  | setEnd l n =>
+    rcases setEndNode_cases s l n false with e | ⟨i, hi, hx, e⟩ <;> simp only [step, e]
+    · exact h
+    · exact setEndNodeR_invR s l n false i hi hx h
+  | setSpeedPattern l p =>
+    rcases setSpeedPattern_cases s l p with e | ⟨i, hi, hp, e⟩ <;> simp only [step, e]
+    · exact h
+    · exact setSpeedPatternR_invR s l p i hi hp h
+  | setPumpCurve l c =>
+    rcases setPumpCurve_cases s l c with e | ⟨i, hi, hp, e⟩ <;> simp only [step, e]
+    · exact h
+    · exact setPumpCurveR_invR s l c i hi hp h
+  | setHeadPattern n p =>
+    rcases setHeadPattern_cases s n p with e | ⟨i, hi, hp, e⟩ <;> simp only [step, e]
+    · exact h
+    · exact setHeadPatternR_invR s n p i hi hp h
+  | setVolCurve n c =>
+    rcases setVolCurve_cases s n c with e | ⟨i, hi, hp, e⟩ <;> simp only [step, e]
+    · exact h
+    · exact setVolCurveR_invR s n c i hi hp h
+  | setHeadlossCurve l c =>
+    rcases setHeadlossCurve_cases s l c with e | ⟨i, hi, hp, e⟩ <;> simp only [step, e]
+    · exact h
+    · exact setHeadlossCurveR_invR s l c i hi hp h
+
+/-- **inv_reachable**: after every finite history of operations, from any model that satisfies the invariant -/
+theorem inv_reachable (s : Reg) (ops : List Op) (h : InvR s) : InvR (run repaired s ops) := by
+  induction ops generalizing s with
+  | nil => exact h
+  | cons op ops ih => exact ih _ (inv_step s op h)
+
+/-- all views agree after every finite history on a new model -/
+theorem inv_history (ops : List Op) : Inv (run repaired init ops) := (inv_reachable init ops inv_init).1
+
+/-! ### an operation that does not succeed changes nothing -/
+
+/-- **not_ok_unchanged**: an operation that is refused or raises leaves the model exactly as it was -/
+theorem not_ok_unchanged (s : Reg) (op : Op) (h : (step repaired s op).2 ≠ .ok) : (step repaired s op).1 = s := by
+  cases op with
+  | addJunction n p => rcases addJunction_cases s n p with e | ⟨_, e⟩ <;> simp_all [step]
+  | addTank n c => rcases addTank_cases s n c with e | ⟨_, e⟩ <;> simp_all [step]
+  | addReservoir n p => rcases addReservoir_cases s n p with e | ⟨_, e⟩ <;> simp_all [step]
+  | addPipe n a b => rcases addPipe_cases s n a b with e | ⟨_, _, _, e⟩ <;> simp_all [step]
+  | addPump n a b sp p => rcases addPump_cases s n a b sp p with e | ⟨_, _, _, e⟩ <;> simp_all [step]
+  | addValve n a b k c => rcases addValve_cases s n a b k c with e | ⟨_, _, _, _, e⟩ <;> simp_all [step]
+  | addPattern n => rcases addPattern_cases s n with e | ⟨_, e⟩ <;> simp_all [step]
+  | addCurve n t => simp [step, addCurve_eq] at h
+  | addSource n nd p => rcases addSource_cases s n nd p with e | ⟨_, e⟩ <;> simp_all [step]
+  | addControl n ns ls => rcases addControl_cases s n ns ls with e | ⟨_, e⟩ <;> simp_all [step]
+  | removeNode n wc f => rcases removeNode_cases s n wc f with ⟨_, e⟩ | e | ⟨_, _, _, e⟩ <;> simp_all [step]
+  | removeLink n wc f => rcases removeLink_cases s n wc f with ⟨_, e⟩ | e | ⟨_, _, e⟩ <;> simp_all [step]
+  | removePattern n => rcases removePattern_cases s n with e | ⟨_, e⟩ <;> simp_all [step]
+  | removeCurve n => rcases removeCurve_cases s n with e | ⟨_, e⟩ <;> simp_all [step]
+  | removeSource n => rcases removeSource_cases s n with e | ⟨_, _, e⟩ <;> simp_all [step]
+  | removeControl n => rcases removeControl_cases s n with e | e <;> simp_all [step]
+  | setStart l n => rcases setEndNode_cases s l n true with e | ⟨_, _, _, e⟩ <;> simp_all [step]
+  | setEnd l n => rcases setEndNode_cases s l n false with e | ⟨_, _, _, e⟩ <;> simp_all [step]
+  | setSpeedPattern l p => rcases setSpeedPattern_cases s l p with e | ⟨_, _, _, e⟩ <;> simp_all [step]
+  | setPumpCurve l c => rcases setPumpCurve_cases s l c with e | ⟨_, _, _, e⟩ <;> simp_all [step]
+  | setHeadPattern n p => rcases setHeadPattern_cases s n p with e | ⟨_, _, _, e⟩ <;> simp_all [step]
+  | setVolCurve n c => rcases setVolCurve_cases s n c with e | ⟨_, _, _, e⟩ <;> simp_all [step]
+  | setHeadlossCurve l c => rcases setHeadlossCurve_cases s l c with e | ⟨_, _, _, e⟩ <;> simp_all [step]
+
+/-- **refused_leaves_unchanged**: a refused removal leaves the model unchanged -/
+theorem refused_leaves_unchanged (s : Reg) (op : Op) (h : (step repaired s op).2 = .refused) : (step repaired s op).1 = s :=
+  not_ok_unchanged s op (by rw [h]; decide)
+
+example : (step repaired (run repaired init [.addJunction 1 none, .addJunction 2 none, .addPipe 3 1 2]) (.removeNode 1 true false)).2
+    = .refused := by decide
+
+/-! ### removing an element that is still in use is refused -/
+
+/-- a node that is an end of an existing link is in use: `remove_node` is refused (whatever `with_control` / `force`) or stopped
+by a control, never performed -/
+theorem remove_node_in_use_refused (s : Reg) (n k : Name) (i : LinkInfo) (wc f : Bool) (h : Inv s)
+    (hk : AL.get? s.links k = some i) (hn : i.start = n ∨ i.end_ = n) :
+    removeNode repaired s n wc f = (s, .refused) := by
+  have hl := (Clause.usageNodeLinks_iff s).1 h.usageNodeLinks k i hk
+  have he := (Clause.endsExist_iff s).1 h.endsExist k i hk
+  rcases removeNode_cases s n wc f with ⟨hnone, e⟩ | e | ⟨j, hj, hu, e⟩
+  · -- `error` is impossible: the node exists
+    exfalso
+    rcases hn with hn | hn <;> subst hn
+    · obtain ⟨a, ha⟩ := he.1; rw [ha] at hnone; cases hnone
+    · obtain ⟨a, ha⟩ := he.2; rw [ha] at hnone; cases hnone
+  · exact e
+  · exfalso
+    rcases hn with hn | hn <;> subst hn
+    · exact hu _ hl.1
+    · exact hu _ hl.2
+
+/-- a node that carries a source is in use -/
+theorem remove_node_with_source_refused (s : Reg) (n k : Name) (si : SourceInfo) (wc f : Bool) (h : Inv s)
+    (hk : AL.get? s.sources k = some si) (hn : si.node = n) (j : NodeInfo) (hj : AL.get? s.nodes n = some j) :
+    removeNode repaired s n wc f = (s, .refused) := by
+  have hl := (Clause.usageNodeSources_iff s).1 h.usageNodeSources k si hk
+  rcases removeNode_cases s n wc f with ⟨hnone, e⟩ | e | ⟨j', hj', hu, e⟩
+  · exfalso; rw [hj] at hnone; cases hnone
+  · exact e
+  · exfalso; subst hn; exact hu _ hl
+
+/-- a pattern that an existing junction, reservoir, pump or source names is in use: `remove_pattern` is refused -/
+theorem remove_pattern_in_use_refused (s : Reg) (p : Name) (h : Inv s)
+    (hu : (∃ k i uk, AL.get? s.nodes k = some i ∧ nodePatUser i.kind = some uk ∧ i.pat = some p) ∨
+          (∃ k i, AL.get? s.links k = some i ∧ isPump i.kind = true ∧ i.pat = some p) ∨
+          (∃ k si, AL.get? s.sources k = some si ∧ si.pat = some p)) :
+    removePattern s p = (s, .refused) := by
+  rcases removePattern_cases s p with e | ⟨hn, e⟩
+  · exact e
+  · exfalso
+    rcases hu with ⟨k, i, uk, hk, h1, h2⟩ | ⟨k, i, hk, h1, h2⟩ | ⟨k, si, hk, h2⟩
+    · exact hn _ ((Clause.usagePatNodes_iff s).1 h.usagePatNodes k i hk uk h1 p h2)
+    · exact hn _ ((Clause.usagePatLinks_iff s).1 h.usagePatLinks k i hk h1 p h2)
+    · exact hn _ ((Clause.usagePatSources_iff s).1 h.usagePatSources k si hk p h2)
+
+/-- a curve that an existing tank, head pump or GPV names is in use: `remove_curve` is refused -/
+theorem remove_curve_in_use_refused (s : Reg) (c : Name) (h : Inv s)
+    (hu : (∃ k i, AL.get? s.nodes k = some i ∧ i.kind = .tank ∧ i.curve = some c) ∨
+          (∃ k i, AL.get? s.links k = some i ∧ (i.kind = .headPump ∨ i.kind = .gpv) ∧ i.curve = some c)) :
+    removeCurve repaired s c = (s, .refused) := by
+  rcases removeCurve_cases s c with e | ⟨hn, e⟩
+  · exact e
+  · exfalso
+    rcases hu with ⟨k, i, hk, h1, h2⟩ | ⟨k, i, hk, h1 | h1, h2⟩
+    · exact hn _ ((Clause.usageCurveNodes_iff s).1 h.usageCurveNodes k i hk h1 c h2)
+    · exact hn _ (((Clause.usageCurveLinks_iff s).1 h.usageCurveLinks k i hk).1 h1 c h2)
+    · exact hn _ (((Clause.usageCurveLinks_iff s).1 h.usageCurveLinks k i hk).2 h1 c h2)
+
 end Wntr.Registry
